@@ -1726,6 +1726,25 @@ def write_plugins_snapshot(manager: BuildManager) -> None:
         manager.error(None, "Error writing plugins snapshot", blocker=True)
 
 
+def invalidate_plugins_snapshot(manager: BuildManager) -> None:
+    """Mark the stored plugins snapshot as not describing the cache any longer.
+
+    This must happen before the first record produced by a different set of plugins is
+    written. From then on, until the new snapshot is written at the end of the build, the
+    cache holds records of both sets and nothing tells them apart: if the build does not
+    complete and the plugins are changed back, the old snapshot would vouch for them all.
+    """
+    # This never equals the snapshot of an actual set of plugins.
+    snapshot = json_dumps({"<incomplete build>": ""})
+    if (
+        not manager.metastore.write(PLUGIN_SNAPSHOT_FILE, snapshot)
+        and manager.options.cache_dir != os.devnull
+    ):
+        manager.errors.set_file(_cache_dir_prefix(manager.options), None, manager.options)
+        manager.error(None, "Error writing plugins snapshot", blocker=True)
+    manager.metastore.commit_path(PLUGIN_SNAPSHOT_FILE)
+
+
 def read_plugins_snapshot(manager: BuildManager) -> dict[str, str] | None:
     """Read cached snapshot of versions and hashes of plugins from previous run."""
     snapshot = _load_json_file(
@@ -4207,6 +4226,12 @@ def dispatch(
         not_connected = [str(idx) for idx, wc in enumerate(manager.workers) if not wc.connected]
         if not_connected:
             raise OSError(f"Cannot connect to build worker(s): {', '.join(not_connected)}")
+        if (
+            manager.old_plugins_snapshot
+            and manager.plugins_snapshot
+            and manager.old_plugins_snapshot != manager.plugins_snapshot
+        ):
+            invalidate_plugins_snapshot(manager)
         process_graph(graph, manager)
         # Update plugins snapshot.
         write_plugins_snapshot(manager)
